@@ -280,7 +280,10 @@ func (c *Ctx) uniqueCallSite(fn *ssa.Function) ssa.Instruction {
 // uniqueCallArg: if fn is a new unexported function with exactly one static call site and no use as a value, the
 // argument passed for parameter number idx there.
 func (c *Ctx) uniqueCallArg(fn *ssa.Function, idx int) ssa.Value {
-	if fn == nil || fn.Object() == nil || !newFuncObjs[fn.Object()] {
+	if fn == nil || fn.Object() == nil {
+		return nil
+	}
+	if !newFuncObjs[fn.Object()] && !c.addedParam(fn, idx) {
 		return nil
 	}
 	if callSiteCache == nil {
@@ -721,4 +724,46 @@ func (c *Ctx) inModule(fn *ssa.Function) bool {
 	}
 	p := fn.Pkg.Pkg.Path()
 	return (p == modPath || strings.HasPrefix(p, modPath+"/")) && !strings.Contains(p, "zz_ref_")
+}
+
+
+// addedParam: fn is a reviewed unexported function and its parameter number idx (receiver counted) has a name the
+// reviewed declaration did not have, while all reviewed names are still there: a value the function used to obtain
+// itself is now passed in. With one call site it reads as the argument passed there.
+func (c *Ctx) addedParam(fn *ssa.Function, idx int) bool {
+	fd, ok := fn.Syntax().(*ast.FuncDecl)
+	if !ok || fd.Name.IsExported() || knownInfo == nil {
+		return false
+	}
+	rel, err := filepath.Rel(c.Cfg.Dir, filepath.Dir(c.Fset.Position(fd.Pos()).Filename))
+	if err != nil {
+		return false
+	}
+	info, has := knownInfo[funcDeclKey(rel, fd)]
+	if !has {
+		return false
+	}
+	names := declParamNames(fd)
+	off := 0
+	if fd.Recv != nil {
+		off = 1
+	}
+	k := idx - off
+	if k < 0 || k >= len(names) || names[k] == "" || names[k] == "_" || len(names) <= len(info.Params) {
+		return false
+	}
+	old := map[string]bool{}
+	for _, n := range info.Params {
+		old[n] = true
+	}
+	cur := map[string]bool{}
+	for _, n := range names {
+		cur[n] = true
+	}
+	for n := range old {
+		if n != "" && n != "_" && !cur[n] {
+			return false // a reviewed parameter is gone: more than an addition
+		}
+	}
+	return !old[names[k]]
 }
